@@ -112,6 +112,17 @@ def DispFits {J σ : Type} (T : Tables) (L : Lib J) (d : Disp σ J) : Prop :=
     | .secop cls => cls ∈ T.errorClasses
     | _ => True
 
+/-- action and specifier of the triple contain no newline -/
+def NoEolTriple {J : Type} (m : Triple J) : Prop := EOL ∉ m.action ∧ EOL ∉ m.spec.getD []
+
+/-- all that "no line is split" needs of a dispatcher (much less than `DispFits`): answering a request whose action
+and specifier contain no newline -- every request cut out of a request line is one -- it sends and returns only
+triples without newline in action and specifier.  Nothing is demanded of the characters otherwise: a specifier
+echoed from a hostile request (control characters, DEL, bytes ≥ 0x80) is covered. -/
+def DispNoEol {J σ : Type} (d : Disp σ J) : Prop :=
+  ∀ st t, NoEolTriple t →
+    (∀ m ∈ (d st t).1.async, NoEolTriple m) ∧ ∀ r, (d st t).1.res = .ok r → NoEolTriple r
+
 /-! ## Monitors on the bytes the real handler sent -/
 
 /-- an emitted byte string is exactly one line -/
